@@ -6,10 +6,14 @@
     and whose line/file metadata is anything at all -- runs exactly like the original: same output, same final world, same
     result, errors of the same kind and payload located at the mapped position; for every program, fuel, world and pair
     of collection schedules.  So a module's code refers to its own definitions whatever the alias, and moving definitions
-    into a module and qualifying their uses cannot change behaviour.  What remains tied by the split-equiv stream only:
-    that the parser's expansion of a whole import graph IS this renaming applied to the spliced statement vector. *)
+    into a module and qualifying their uses cannot change behaviour.  Proofs/ParseEquiv.v connects the two halves for a
+    module without import statements of its own: the parser never looks at the spelling of an identifier, so parsing the
+    renamed tokens gives the renamed parse (C14_module_parse_is_the_renamed_parse: same statements, every name mapped by
+    the qualification of C14_qualified_module_code_behaves_like_the_original, positions untouched, errors the same).
+    What remains tied by the split-equiv stream only: that this holds for the module's tokens where they stand -- spliced
+    between the importer's statements -- and through nested imports. *)
 From Pakhi Require Import Base Float64 Syntax Tables Lexer Parser Interp.
-From Pakhi.Proofs Require Import Modules WF Sim2Defs Sim2 Compose.
+From Pakhi.Proofs Require Import Modules WF Sim2Defs Sim2 Compose ParseTerm ParseEquiv.
 Local Open Scope nat_scope.
 
 Theorem C14_qualified_module_code_behaves_like_the_original : forall alias pi code platform w fuel schedA schedB,
@@ -106,7 +110,32 @@ Theorem C14_module_spliced_at_import_point : forall fs cwd main_path alias modul
     tokenize src (module_file_path main_path module_path) = Ok toks /\
     expand_dirname cwd toks (module_file_path main_path module_path) = Ok toks' /\
     ps_rest s2 = semi :: filter (fun t => negb (tk_is (t_kind t) TEOT)) (prepend_names toks' alias false) ++ after /\
-    tk_is (t_kind (last (filter (fun t => negb (tk_is (t_kind t) TEOT)) (prepend_names toks' alias false)) (eot []))) TImport = false /\
+    tk_is (t_kind (last (filter (fun t => negb (tk_is (t_kind t) TEOT)) (prepend_names toks' alias false)) (Lexer.eot []))) TImport = false /\
     ps_mods s2 = (alias, same_file_key (module_file_path main_path module_path)) :: ps_mods s1.
 Proof. exact import_splices_in_place. Qed.
 Print Assumptions C14_module_spliced_at_import_point.
+
+(** the parser commutes with renaming identifiers, for any renaming [rho]: [sm rho s] is the parser state with every
+    identifier token renamed, [smap rho idp] renames the names of a statement and leaves positions alone *)
+Theorem C14_parser_commutes_with_renaming : forall rho fs cwd main_path f s, ParseTerm.eot s -> noimp s ->
+  pprogram fs cwd main_path f (sm rho s) = omp rho (pprogram fs cwd main_path f s).
+Proof. exact pprogram_equivariant. Qed.
+Print Assumptions C14_parser_commutes_with_renaming.
+
+(* what an import does to the tokens of a module without imports of its own is that renaming, with rho = qualification *)
+Theorem C14_import_renaming_is_a_token_renaming : forall alias ts, Forall (fun t => t_kind t <> TImport) ts ->
+  prepend_names ts alias false = map (tmap (qualify_name alias)) ts.
+Proof. exact prepend_names_is_tmap. Qed.
+Print Assumptions C14_import_renaming_is_a_token_renaming.
+
+Theorem C14_module_parse_is_the_renamed_parse : forall fs cwd main_path alias f ts prev last mods,
+  Forall (fun t => t_kind t <> TImport) ts -> t_kind last = TEOT ->
+  pprogram fs cwd main_path f (mkPs (prepend_names ts alias false) (option_map (tmap (qualify_name alias)) prev) (tmap (qualify_name alias) last) mods) =
+  omp (qualify_name alias) (pprogram fs cwd main_path f (mkPs ts prev last mods)).
+Proof. exact module_parse_is_renamed_parse. Qed.
+Print Assumptions C14_module_parse_is_the_renamed_parse.
+
+(* and that qualification is the one of the semantic theorem above *)
+Theorem C14_the_two_qualifications_agree : forall alias x, qualify_name alias x = qualify alias x.
+Proof. exact qualify_name_is_qualify. Qed.
+Print Assumptions C14_the_two_qualifications_agree.
